@@ -91,6 +91,32 @@ func (r *Rng) boundsTree(depth int, layouts []geom.Layout) (geom.T, string) {
 		g := r.flatGeom(layouts[r.Intn(len(layouts))])
 		return g, fmt.Sprintf("(f %d %d %s)", int(g.Layout()), g.Stride(), sxCoord(g.FlatCoords()))
 	}
+	if depth >= 1 && r.chance(1, 6) {
+		// a collection whose own layout is fixed while a nested layout-less collection holds members
+		// of other layouts (narrower, or the other three-ordinate kind)
+		cand := xyzmLayouts[r.Intn(4)]
+		outer := geom.NewGeometryCollection()
+		var ps []string
+		for i := r.Intn(3); i > 0; i-- {
+			g := r.flatGeom(cand)
+			outer.MustPush(g)
+			ps = append(ps, fmt.Sprintf("(f %d %d %s)", int(g.Layout()), g.Stride(), sxCoord(g.FlatCoords())))
+		}
+		inner := geom.NewGeometryCollection()
+		var ips []string
+		for i := 1 + r.Intn(3); i > 0; i-- {
+			g := r.flatGeom(xyzmLayouts[r.Intn(4)])
+			inner.MustPush(g)
+			ips = append(ips, fmt.Sprintf("(f %d %d %s)", int(g.Layout()), g.Stride(), sxCoord(g.FlatCoords())))
+		}
+		outer.MustPush(inner)
+		ps = append(ps, fmt.Sprintf("(c 0 (%s))", strings.Join(ips, " ")))
+		fixed := geom.NoLayout
+		if err := outer.SetLayout(cand); err == nil {
+			fixed = cand
+		}
+		return outer, fmt.Sprintf("(c %d (%s))", int(fixed), strings.Join(ps, " "))
+	}
 	gc := geom.NewGeometryCollection()
 	k := r.Intn(4)
 	var parts []string
@@ -107,6 +133,13 @@ func (r *Rng) boundsTree(depth int, layouts []geom.Layout) (geom.T, string) {
 	if len(same) == 1 && r.chance(1, 2) {
 		if err := gc.SetLayout(same[0]); err == nil {
 			fixed = same[0]
+		}
+	} else if r.chance(1, 3) {
+		// any layout the collection accepts (nested layout-less collections are not looked into, so
+		// what is inside may be narrower, wider or of the other three-ordinate kind)
+		cand := xyzmLayouts[r.Intn(4)]
+		if err := gc.SetLayout(cand); err == nil {
+			fixed = cand
 		}
 	}
 	return gc, fmt.Sprintf("(c %d (%s))", int(fixed), strings.Join(parts, " "))
@@ -166,6 +199,13 @@ func genC08(r *Rng, e *Emitter, n int) {
 			e.emit("C08.bounds", fmt.Sprintf("(f %d %d %s)", int(g.Layout()), g.Stride(), sxCoord(g.FlatCoords())),
 				guard(func() string { return "(ok " + sxBounds(g.Bounds()) + ")" }))
 		case c < 4: // Bounds() of a (nested) collection
+			if r.chance(1, 2) {
+				// the generated tree itself is asked (its own layout may be fixed)
+				top, tsx := r.boundsTree(3, xyzmLayouts)
+				e.tally("op=bounds-tree")
+				e.emit("C08.bounds", tsx, guard(func() string { return "(ok " + sxBounds(top.Bounds()) + ")" }))
+				break
+			}
 			gc := geom.NewGeometryCollection()
 			var parts []string
 			for k := r.Intn(4); k > 0; k-- {
